@@ -72,10 +72,14 @@ def main():
         r = run_one(sid, props, tier, seed)
         r['tier'] = tier
         r['seed'] = seed
-        results[sid] = r
         own = r['checks'].get(props[0], {})
         print(sid, 'DETECTED' if own.get('exit') == 1 else 'MISSED(exit %s)' % own.get('exit'), own.get('violation_keys'), own.get('wall_s'), flush=True)
-        json.dump(results, open(rp, 'w'), indent=1, sort_keys=True)
+        import fcntl
+        with open(rp + '.lock', 'w') as lf:
+            fcntl.flock(lf, fcntl.LOCK_EX)
+            results = json.load(open(rp)) if os.path.exists(rp) else {}
+            results[sid] = r
+            json.dump(results, open(rp, 'w'), indent=1, sort_keys=True)
 
 if __name__ == '__main__':
     main()
